@@ -1,4 +1,5 @@
 import PlcProofs.Lemmas.Analyze
+import PlcProofs.Lemmas.Stages
 
 /-!
 # C02 — the check verdict agrees with the documented semantic rules, in both directions
@@ -185,5 +186,55 @@ theorem single_fault_P0004 (ds : List ADecl) (hreach : analyzeDecls ds = rules d
 example : semantic [⟨false, [.subrangeT 1 5 5, .structT 2 [(3, .int, none), (3, .bool, none)]]⟩] = [[P0003], [P0004]] := by decide
 example : semantic [⟨false, [.subrangeT 1 1 5, .prog 2 [⟨3, .var, false, .int, none⟩] [.assign 3 [3]]]⟩] = [] := by decide
 example : semantic [⟨false, [.prog 2 [⟨3, .var, false, .int, none⟩] [.assign 3 [4]]]⟩] = [[P0015]] := by decide
+
+
+/-! ### the stage table and the code (`Gen/Stages.lean` is re-extracted from `stages.rs`, the stage modules and
+`problem-codes.csv` on every run) -/
+
+/-- The model runs the transforms of `resolve_types` and the rules of `semantic` that `stages.rs` lists, in
+the order it lists them (a stage added, removed or moved in the code breaks this). -/
+theorem stage_order_is_code :
+    xformStages.map (·.name) = Gen.xforms ∧ ruleStages.map (·.name) = Gen.rules := by decide
+
+/-- Running the stage table is the pipeline `analyzeDecls` that the other theorems are about. -/
+theorem staged_pipeline (ds : List ADecl) : analyzeStaged ds = analyzeDecls ds :=
+  Stages.analyzeStaged_eq ds
+
+/-- The model lets a stage report only problem codes that the stage's Rust module names (`Problem::…` in its
+non-test source; P9999 is `Diagnostic::todo`, which names no `Problem`), and for the rules every code the
+module names is one the model's rule can report (except P0013, the enumeration rule's own recursion
+answer, which the declaration sort pre-empts with P0010). -/
+theorem stage_codes_are_code :
+    (∀ s ∈ xformStages, ∀ c ∈ s.codes, c = P9999 ∨ c ∈ namedInSource s.name) ∧
+    (∀ s ∈ ruleStages, ∀ c ∈ s.codes, c = P9999 ∨ c ∈ namedInSource s.name) ∧
+    (∀ s ∈ ruleStages, ∀ c ∈ namedInSource s.name, c = 13 ∨ c ∈ s.codes) := by decide
+
+/-- Every code in the stage table is a published problem code (`problem-codes.csv`). -/
+theorem stage_codes_published :
+    (∀ s ∈ xformStages, ∀ c ∈ s.codes, (Gen.problems.any (·.1 == c)) = true) ∧
+    (∀ s ∈ ruleStages, ∀ c ∈ s.codes, (Gen.problems.any (·.1 == c)) = true) := by decide
+
+/-- A rule reports only the codes of its table entry, whatever the unit ("a unit … is never rejected with
+[another] rule's problem code" at the level of single rules). -/
+theorem rule_reports_only_its_codes :
+    ∀ s ∈ ruleStages, ∀ ds, ∀ g ∈ s.run ds, ∀ c ∈ g, c ∈ s.codes := by
+  intro s hs ds
+  simp only [ruleStages, List.mem_cons, List.mem_nil_iff, or_false] at hs
+  rcases hs with rfl | rfl | rfl | rfl | rfl | rfl | rfl | rfl | rfl | rfl | rfl
+  · exact Stages.ruleStruct_codes ds
+  · exact Stages.ruleSubrange_codes ds
+  · exact Stages.ruleEnumUnique_codes ds
+  · exact Stages.ruleFbCall_codes ds
+  · exact Stages.ruleTask_codes ds
+  · exact Stages.ruleEnumUse_codes ds
+  · exact Stages.ruleVarUse_codes ds
+  · exact Stages.ruleStdlib_codes ds
+  · exact Stages.ruleConstInit_codes ds
+  · exact Stages.ruleConstFb_codes ds
+  · exact Stages.ruleExternalConst_codes ds
+
+/-- non-vacuity: a unit on which the third transform aborts and one that reaches the rules -/
+example : analyzeStaged [.subrangeT 1 5 2] = [[P0004]] := by decide
+example : analyzeStaged [.fb 1 [⟨2, .var, false, .named 1, none⟩] []] = [[P0010]] := by decide
 
 end C02
